@@ -171,7 +171,20 @@ def run_case(case, ctx):
         ctx.stat("pchol_calls")
         with Recorder(keep=("pchol",), clone=True) as rec, warnings.catch_warnings():
             warnings.simplefilter("ignore")
-            out, ex = compare.attempt(lambda: op.pivoted_cholesky(case["rank"], error_tol=case["error_tol"], return_pivots=True))
+            # entry point: the operator method, or the functional API (linear_operator.pivoted_cholesky) on the tensor / the operator;
+            # the caller's rank / error_tol / return_pivots must reach the kernel through either
+            entry = ("method", "functional", "functional_tensor")[(case["seed"] >> 5) % 3]
+            if entry == "functional_tensor" and mode != "pchol":
+                entry = "functional"
+            info.add("entry:" + entry)
+            ctx.stat("entry:" + entry)
+            if entry == "method":
+                out, ex = compare.attempt(lambda: op.pivoted_cholesky(case["rank"], error_tol=case["error_tol"], return_pivots=True))
+            else:
+                import linear_operator
+
+                arg = A if entry == "functional_tensor" else op
+                out, ex = compare.attempt(lambda: linear_operator.pivoted_cholesky(arg, case["rank"], error_tol=case["error_tol"], return_pivots=True))
         ctx.stat("pchol_iter_events", rec.count("pchol.iter"))
         if ex is not None:
             if ex.type == "StepBoundExceeded":
